@@ -405,9 +405,12 @@ func init() {
 
 		cfg := cfgC01()
 		exact := true
-		if *profile == "wide" || *profile == "balancing" {
+		if *profile == "wide" {
 			cfg.Nullable, cfg.NestedRep, cfg.G, cfg.Balancing, cfg.NumNames = true, true, true, true, true
 			exact = false
+		}
+		if *profile == "balancing" {
+			cfg.Balancing = true // inside the exact oracle: RegexSem has the balancing-group rule
 		}
 		g := &Gen{r: newRand(seedFromEnv(), *stream), c: cfg}
 		alpha := inputAlphabet(cfg)
